@@ -104,7 +104,7 @@ def cheap_state():
 
     return (tuple(sorted(numpy.geterr().items())), id(numpy.geterrcall()), len(warnings.filters), id(warnings.filters[0]) if warnings.filters else 0,
             numpy.get_printoptions()["precision"], numpy.get_printoptions()["threshold"], vector._awkward_registered,
-            len(awkward.behavior), id(warnings.showwarning))
+            len(awkward.behavior), sum(hash((k, id(v))) & 0xFFFFFFFF for k, v in awkward.behavior.items()), id(warnings.showwarning))
 
 
 class FilterWriteWatch:
@@ -259,8 +259,19 @@ def singular_rows(system):
     return out
 
 
+
+def _merged_behavior():
+    import awkward as ak
+    import vector.backends.awkward as vba
+
+    m = dict(ak.behavior)
+    m.update(vba.behavior)
+    return m
+
+
 def run_state(spec, tier, seed, res):
     import awkward as ak
+    import vector
 
     tap.install()
     cfg = spec["config"]
@@ -402,6 +413,17 @@ def run_state(spec, tier, seed, res):
                      ("vector.array", lambda: vector.array({"x": [1.0], "y": [2.0]})), ("vector.array-invalid", lambda: vector.array({"x": [1.0]})),
                      ("vector.zip", lambda: vector.zip({"x": [[1.0]], "y": [[2.0]]})), ("vector.zip-invalid", lambda: vector.zip({"x": [1.0]})),
                      ("vector.Array", lambda: vector.Array([{"x": 1.0, "y": 2.0}])), ("vector.Array-invalid", lambda: vector.Array([{"x": 1.0}])),
+                     # inputs that already carry a behavior mapping: Awkward's global registry itself, or a mapping the caller owns
+                     ("vector.Array(array with behavior=ak.behavior)", lambda: vector.Array(ak.Array([{"x": 1.0, "y": 2.0}], behavior=ak.behavior))),
+                     ("vector.Array(list, behavior=ak.behavior)", lambda: vector.Array([{"x": 1.0, "y": 2.0}], behavior=ak.behavior)),
+                     ("vector.Array(jagged momentum array with behavior=ak.behavior)",
+                      lambda: vector.Array(ak.Array([[{"pt": 1.0, "phi": 2.0, "eta": 0.5, "mass": 0.1, "q": 1}], []], behavior=ak.behavior))),
+                     ("vector.zip(columns with behavior=ak.behavior)",
+                      lambda: vector.zip({"x": ak.Array([[1.0]], behavior=ak.behavior), "y": ak.Array([[2.0]], behavior=ak.behavior)})),
+                     ("operations on ak.zip(with_name, behavior=merged global)",
+                      lambda: ak.zip({"x": ak.Array([[1.0], []]), "y": ak.Array([[2.0], []])}, with_name="Vector2D",
+                                     behavior=_merged_behavior()).rotateZ(0.5).rho),
+                     ("ak.with_name on a vector array", lambda: ak.with_name(vector.zip({"x": [[1.0]], "y": [[2.0]]}), "Momentum2D").pt),
                      ("repr", lambda: repr(vector.array({"x": [1.0, 2.0, 3.0], "y": [2.0, 3.0, 4.0]}))),
                      ("repr-obj", lambda: repr(vector.obj(pt=1.0, phi=2.0, eta=0.5, mass=0.1))),
                      ("str-awkward", lambda: str(vector.zip({"x": [[1.0], []], "y": [[2.0], []]}))),
